@@ -409,6 +409,137 @@ pub fn confined_position(rng: &mut Rng) -> ([u8; 64], Vec<usize>) {
     }
 }
 
+/// the square that a missing edge mask would alias with square i (one step across the a/h edge)
+pub fn wrap_partners(i: usize) -> Vec<usize> {
+    let mut v = Vec::new();
+    if i % 8 == 0 && i >= 1 {
+        v.push(i - 1);
+    }
+    if i % 8 == 7 && i + 1 < 64 {
+        v.push(i + 1);
+    }
+    v
+}
+
+fn random_piece(rng: &mut Rng) -> u8 {
+    // rabbits and cats more often than the unique pieces
+    let t = [1u8, 1, 2, 2, 3, 3, 4, 4, 5, 6][rng.below(10)];
+    t + 6 * rng.below(2) as u8
+}
+
+/// Positions built around ONE intended first step (returned as (cells, gold_to_move, square, direction)):
+/// kind 0 = a push start: an enemy piece on `sq` is displaced in `dir`;
+/// kind 1 = a step of a non-rabbit piece of the mover from `sq` (a pull may follow).
+/// The four neighbours of sq, their neighbours, and the squares that alias with any of them across
+/// the a/h edge are filled at random (dense), so that the follow-up lists (push completions, pull
+/// completions, freezing, captures on an adjacent trap) are exercised in every geometric situation,
+/// corners and edges included, at high volume.
+pub fn focus_position(rng: &mut Rng, kind: usize) -> Option<([u8; 64], bool, usize, Direction)> {
+    let dirs = [Direction::Up, Direction::Right, Direction::Down, Direction::Left];
+    // corners, the squares next to them and the other edge squares are over-represented: that is
+    // where direction masks, wrap-around and goal/home-rank special cases live
+    let sq = loop {
+        let i = rng.below(64);
+        let (r, f) = (i / 8, i % 8);
+        let edge_r = r == 0 || r == 7;
+        let edge_f = f == 0 || f == 7;
+        let near_corner = (r <= 1 || r >= 6) && (f <= 1 || f >= 6);
+        let w = if near_corner { 1.0 } else if edge_r || edge_f { 0.5 } else if TRAPS.iter().any(|&t| t == i || neighbours(t).contains(&i)) { 0.35 } else { 0.15 };
+        if rng.chance(w) {
+            break i;
+        }
+    };
+    let gold = rng.chance(0.5);
+    let me: u8 = if gold { 0 } else { 1 };
+    let d = dirs[rng.below(4)];
+    let dest = crate::drivers::dest_of(sq, d)?;
+    let mut c = [0u8; 64];
+    let t = if kind == 0 { 1 + rng.below(5) as u8 } else { 2 + rng.below(5) as u8 };
+    c[sq] = t + 6 * (if kind == 0 { 1 - me } else { me });
+    // first ring
+    let mut involved: Vec<usize> = vec![sq, dest];
+    for n in neighbours(sq) {
+        if n == dest {
+            continue;
+        }
+        involved.push(n);
+        if rng.chance(0.7) {
+            c[n] = random_piece(rng);
+        }
+    }
+    // make the intended first step likely to be legal: for a push, a stronger piece of the mover next
+    // to the victim (it may still turn out frozen - that is part of what is being tested)
+    if kind == 0 && t < 6 && rng.chance(0.85) {
+        let cand: Vec<usize> = neighbours(sq).into_iter().filter(|&n| n != dest).collect();
+        if !cand.is_empty() {
+            let n = cand[rng.below(cand.len())];
+            c[n] = t + 1 + rng.below((6 - t) as usize) as u8 + 6 * me;
+        }
+    }
+    // second ring: neighbours of the first ring and of the destination
+    let ring1: Vec<usize> = involved.clone();
+    for &n in ring1.iter() {
+        for m in neighbours(n) {
+            if !involved.contains(&m) {
+                involved.push(m);
+                if rng.chance(0.45) {
+                    c[m] = random_piece(rng);
+                }
+            }
+        }
+    }
+    // squares aliasing with any involved square across the board edge
+    let inv2 = involved.clone();
+    for &n in inv2.iter() {
+        for w in wrap_partners(n) {
+            if !involved.contains(&w) && c[w] == 0 && rng.chance(0.6) {
+                c[w] = random_piece(rng);
+            }
+        }
+    }
+    c[dest] = 0;
+    // complement and goal-rank repairs
+    let mut counts = [0usize; 13];
+    for i in 0..64 {
+        let v = c[i];
+        if v == 0 {
+            continue;
+        }
+        let ty = if v <= 6 { v } else { v - 6 };
+        if counts[v as usize] >= COMPLEMENT[ty as usize] || (v == 1 && i < 8) || (v == 7 && i >= 56) {
+            if i == sq {
+                return None;
+            }
+            c[i] = 0;
+        } else {
+            counts[v as usize] += 1;
+        }
+    }
+    for (v, lo, hi) in [(1u8, 24usize, 56usize), (7u8, 8usize, 40usize)] {
+        if counts[v as usize] == 0 {
+            for _ in 0..30 {
+                let i = lo + rng.below(hi - lo);
+                if c[i] == 0 && !involved.contains(&i) && !TRAPS.contains(&i) {
+                    c[i] = v;
+                    break;
+                }
+            }
+        }
+    }
+    for &tq in TRAPS.iter() {
+        if c[tq] != 0 && !has_friend(&c, tq) {
+            if tq == sq {
+                return None;
+            }
+            c[tq] = 0;
+        }
+    }
+    if !legal_position(&c) || !c.contains(&1) || !c.contains(&7) {
+        return None;
+    }
+    Some((c, gold, sq, d))
+}
+
 /// C04: every combination of the five win conditions that can be realised with a few pieces.
 pub fn results_family() -> Vec<([u8; 64], bool)> {
     let mut out = Vec::new();
